@@ -30,13 +30,13 @@ fn gen_expr(ch: &mut Choices, g: &Gen, depth: u32, allow_branches: bool) -> Vec<
             0 | 1 => WOp::Simple(SIMPLE_OPS[ch.below(SIMPLE_OPS.len())]),
             2 => WOp::Addr(ch.biased(64) & g.addr_mask),
             3 | 4 => WOp::Constu(ch.pick(&[0u64, 1, 30, 31, 32, 33, 127, 128, 16383, 16384, u64::MAX])),
-            5 => WOp::Consts(ch.pick(&[0i64, -1, 63, 64, -64, -65, 8191, 8192, i64::MAX, i64::MIN])),
+            5 => WOp::Consts(if ch.bool() { ch.sleb_edge() } else { ch.pick(&[0i64, -1, 63, 64, -64, -65, 8191, 8192, i64::MAX, i64::MIN]) }),
             6 => {
                 let k = ch.pick(&[0usize, 1, 4, 8, 255]);
                 WOp::ConstType(t(ch), ch.bytes(k.min(16)).into_iter().cycle().take(k).collect())
             }
-            7 => WOp::Fbreg(ch.biased_signed(64)),
-            8 | 9 => WOp::Breg(ch.pick(&[0u16, 30, 31, 32, 33, 127, 128, 0xffff]), ch.biased_signed(64)),
+            7 => WOp::Fbreg(if ch.bool() { ch.sleb_edge() } else { ch.biased_signed(64) }),
+            8 | 9 => WOp::Breg(ch.pick(&[0u16, 30, 31, 32, 33, 127, 128, 0xffff]), if ch.bool() { ch.sleb_edge() } else { ch.biased_signed(64) }),
             10 => WOp::RegvalType(ch.pick(&[0u16, 31, 32, 200]), t(ch)),
             11 | 12 => WOp::Pick(ch.pick(&[0u8, 1, 2, 3, 255])),
             13 => WOp::Deref,
@@ -82,7 +82,7 @@ fn gen_expr(ch: &mut Choices, g: &Gen, depth: u32, allow_branches: bool) -> Vec<
             }
             34 => {
                 let tu = ch.below(g.n_units);
-                WOp::ImplicitPointer(tu, ch.below(g.counts[tu]), ch.biased_signed(64))
+                WOp::ImplicitPointer(tu, ch.below(g.counts[tu]), if ch.bool() { ch.sleb_edge() } else { ch.biased_signed(64) })
             }
             35 => WOp::Piece(ch.pick(&[0u64, 1, 127, 128, u64::MAX >> 3])),
             36 => WOp::BitPiece(ch.biased(64), ch.biased(64)),
